@@ -88,6 +88,7 @@ def install(it):
     it.attr_models.append(bytes_attr_model)
     install_compile(it)
     install_ipaddress(it)
+    install_ast_visitors(it)
     install_total_ordering(it)
     install_binascii(it)
 
@@ -146,6 +147,58 @@ def m_eval(it, code, g=None, l=None):
         env.eval_locals = True
         return it.eval(code.tree.body, env, m)
     return it.eval(code.tree.body, m.g, m)
+
+
+def install_ast_visitors(it):
+    """ast.NodeVisitor / ast.NodeTransformer as base classes of an interpreted class: visit() dispatches on the node class to the (interpreted)
+    visit_<Class> method, generic_visit() walks the fields (the standard library's own pure-Python definitions, restated)."""
+    import ast
+
+    from ..values import PFunc, PBound
+
+    def m_visit(it_, obj, node):
+        f = obj.cls.find("visit_" + type(node).__name__)
+        if isinstance(f, PFunc):
+            return it_.call(PBound(f, obj), [node], {})
+        return it_.call(it_.getattr_(obj, "generic_visit"), [node], {})
+
+    def m_generic_visit(it_, obj, node):
+        visit = it_.getattr_(obj, "visit")
+        for field, value in ast.iter_fields(node):
+            if isinstance(value, list):
+                for item in value:
+                    if isinstance(item, ast.AST):
+                        it_.call(visit, [item], {})
+            elif isinstance(value, ast.AST):
+                it_.call(visit, [value], {})
+
+    def m_generic_visit_transformer(it_, obj, node):
+        visit = it_.getattr_(obj, "visit")
+        for field, old_value in ast.iter_fields(node):
+            if isinstance(old_value, list):
+                new_values = []
+                for value in old_value:
+                    if isinstance(value, ast.AST):
+                        value = it_.call(visit, [value], {})
+                        if value is None:
+                            continue
+                        elif not isinstance(value, ast.AST):
+                            new_values.extend(value)
+                            continue
+                    new_values.append(value)
+                old_value[:] = new_values
+            elif isinstance(old_value, ast.AST):
+                new_node = it_.call(visit, [old_value], {})
+                if new_node is None:
+                    delattr(node, field)
+                else:
+                    setattr(node, field, new_node)
+        return node
+
+    for base in (ast.NodeVisitor, ast.NodeTransformer):
+        it.native_method_models[(base, "visit")] = m_visit
+    it.native_method_models[(ast.NodeVisitor, "generic_visit")] = m_generic_visit
+    it.native_method_models[(ast.NodeTransformer, "generic_visit")] = m_generic_visit_transformer
 
 
 def install_compile(it):
